@@ -61,7 +61,9 @@ QUICK_N = 300
 THOROUGH_N = 3000
 SHARD = 60
 DRIVER_TIMEOUT = 600
-RULE = ("6 independence scripts per run (executors with explicit WithBulkTasks / WithChunkBytes / interval options are created "
+RULE = ("stat.Metrics scripts vary (stat log switch on / off) x (logx stat switch on / off, own driver process) x (report "
+        "writer installed before the adds / after the first period's adds but before its flush / after its flush); "
+        "6 independence scripts per run (executors with explicit WithBulkTasks / WithChunkBytes / interval options are created "
         "and used first, then the observed Bulk / Chunk executor is created WITHOUT options: 1000+k tasks resp. 0.1-1 MiB "
         "tasks; threshold batches must be full at the documented default, interval = default) and earlier executors / "
         "explicit intervals (250 ms, 2 s) on 20% / 12% of the random scripts; stat.Metrics periods whose report is being "
@@ -216,12 +218,15 @@ def drive(cases, tier):
     thorough tier: the drivers run under the race detector"""
     obs = [None] * len(cases)
     logs = []
-    for tgt, (pkg, run) in PKGS.items():
-        idx = [k for k, c in enumerate(cases) if c.get("target", "pe") == tgt]
+    groups = [(tgt, pkg, run, False) for tgt, (pkg, run) in PKGS.items()] + [("stat", PKGS["stat"][0], PKGS["stat"][1], True)]
+    for tgt, pkg, run, logx_off in groups:
+        # logx.DisableStat() is one-way and process-wide: those Metrics cases get a process of their own
+        idx = [k for k, c in enumerate(cases) if c.get("target", "pe") == tgt and bool(c.get("logx_off")) == logx_off]
         if not idx:
             continue
-        o, log = vlib.run_driver(pkg, [cases[k] for k in idx], name=ID + tgt + ("s" if tier == "search" else ""),
-                                 timeout=DRIVER_TIMEOUT, run=run, race=(tier == "thorough"))
+        o, log = vlib.run_driver(pkg, [cases[k] for k in idx], name=ID + tgt + ("x" if logx_off else "") + ("s" if tier == "search" else ""),
+                                 timeout=DRIVER_TIMEOUT, run=run, race=(tier == "thorough"),
+                                 env={"VERIF_C16_LOGX_OFF": "1"} if logx_off else None)
         logs.append(log)
         if o is None:
             return None, "\n".join(logs)
@@ -304,7 +309,19 @@ def _stat_case(rng):
         else:
             ops.append({"op": "overlap", "via": rng.choice(["tick", "flush"]), "n": rng.randint(1, 6)})
     ops.append({"op": "flush"})
-    return {"target": "stat", "chunk": False, "max": 10 ** 9, "ops": ops}
+    # (stat log on / off) x (logx stat switch on / off) x (writer installed before the adds / after the adds of the
+    # first period but before its flush / only after the first period was flushed)
+    closing = [k for k, o in enumerate(ops) if o["op"] in ("tick", "flush", "wgate", "overlap")]
+    x = rng.random()
+    if x < 0.35:
+        at = 0
+    elif x < 0.85:
+        at = closing[0]
+    else:
+        at = min(closing[0] + 1, len(ops) - 1)
+    ops.insert(at, {"op": "setwriter"})
+    return {"target": "stat", "chunk": False, "max": 10 ** 9, "log": rng.random() < 0.5, "logx_off": rng.random() < 0.3,
+            "ops": ops}
 
 
 def _hold_case(rng):
@@ -402,10 +419,26 @@ def _indep_cases(rng, tier):
     return cases
 
 
+def _stat_directed(rng):
+    """the (log, logx, writer position) corners, always present"""
+    out = []
+    for log, logx_off in ((False, False), (True, False), (False, True)):
+        a, d = rng.randint(1, 5), rng.randint(1, 3)
+        # tasks and drops arrive before any writer exists; the writer is installed before the period's flush
+        out.append({"target": "stat", "chunk": False, "max": 10 ** 9, "log": log, "logx_off": logx_off,
+                    "ops": [{"op": "add", "n": a}, {"op": "drop", "n": d}, {"op": "setwriter"}, {"op": rng.choice(["flush", "tick"])},
+                            {"op": "add", "n": 2}, {"op": "flush"}]})
+        # a whole period is flushed before a writer exists: its tasks still reach Execute, the next period is reported
+        out.append({"target": "stat", "chunk": False, "max": 10 ** 9, "log": log, "logx_off": logx_off,
+                    "ops": [{"op": "add", "n": a}, {"op": "drop", "n": d}, {"op": "flush"}, {"op": "setwriter"},
+                            {"op": "drop", "n": 1}, {"op": "add", "n": 3}, {"op": "tick"}, {"op": "flush"}]})
+    return out
+
+
 def _users(rng, tier):
     k = 4 if tier == "thorough" else 1
     out = [_sqlx_case(rng, 0), _sqlx_case(rng, 1)] + [_sqlx_case(rng) for _ in range(SQLX_N * k - 2)]
-    out += [_stat_case(rng) for _ in range(STAT_N * k)]
+    out += _stat_directed(rng) + [_stat_case(rng) for _ in range(STAT_N * k)]
     return out
 
 
@@ -565,7 +598,8 @@ def _encode_stat(case, obs):
     calls = ["mkcall false %s %s" % (cnat(k["call"]), cnat(k["ret"])) for k in obs["calls"]]
     ticks = ["mktick %s %s %s" % (cnat(t["seq"]), cbool(t["delivered"]), cnat(t["done"])) for t in obs["ticks"]]
     batches = ["mkbatch %s %s %s" % (clist([cnat(x) for x in b["ids"]]), cnat(b["start"]), cnat(b["end"])) for b in obs["batches"]]
-    reps = ["mkrep %s %s %s %s %s" % (cnat(b["drops"]), cZ(b["dur_ms"]), cZ(b["count"]), cnat(b["rdrops"]), cZ(b["sum_ms"])) for b in obs["batches"]]
+    reps = ["mkrep %s %s %s %s %s %s" % (cnat(b["drops"]), cZ(b["dur_ms"]), cZ(b["count"]), cnat(b["rdrops"]), cZ(b["sum_ms"]),
+                                         cbool(b.get("written", True))) for b in obs["batches"]]
     return "mkcase false %s %s %s %s %s %s %s %s %s [] %s %s %s true %s %s None" % (
         cZ(case["max"]), clist(sizes), cbool(seq), clist(ops), cnat(len(case["ops"])),
         clist(adds), clist(calls), clist(ticks), clist(batches), cbool(bool(obs["hung"])), cnat(obs["pending"]),
@@ -656,6 +690,11 @@ def nontrivial(case, obs):
 def bucket(case, obs):
     if case.get("target") in ("sqlx", "stat"):
         out = ["target:" + case["target"]] + ["op:" + case["target"] + "." + o["op"] for o in case["ops"]]
+        if case["target"] == "stat":
+            first = next((k for k, o in enumerate(case["ops"]) if o["op"] in ("tick", "flush", "wgate", "overlap")), 0)
+            wpos = next((k for k, o in enumerate(case["ops"]) if o["op"] == "setwriter"), -1)
+            out.append("stat:log=%s,logx=%s,writer=%s" % ("on" if case.get("log") else "off", "off" if case.get("logx_off") else "on",
+                                                         "first" if wpos == 0 else ("before-flush" if wpos <= first else "after-first-flush")))
         if "adds" in obs:
             out.append(case["target"] + "-batches=%d" % min(len(obs["batches"]), 12))
             if obs["hung"]:
